@@ -55,8 +55,8 @@ def run(tier):
         ctx.samples.append(dict(corpus=name, **T.describe(rows[0])))
     # on-demand half: GetOnDemand / ParseOnDemand results across the six binaries
     F = T.fmtset
-    odrecs = O.gen_od(ctx, dict(MaxNodes=3, Pool=3, Layouts=F([0, 2]), Wide="FALSE", D=2), "Gen_OnDemand_c15")
-    odrecs += O.gen_od(ctx, dict(MaxNodes=1, Pool=0, Layouts=F([0, 3]), Wide="TRUE", D=1), "Gen_OnDemand_c15w")
+    odrecs = O.gen_od(ctx, dict(MaxNodes=3, Pool=3, Layouts=F([0, 2]), Wide="FALSE", D=2), "Gen_OnDemand_c15", equiv=False)
+    odrecs += O.gen_od(ctx, dict(MaxNodes=1, Pool=0, Layouts=F([0, 3]), Wide="TRUE", D=1), "Gen_OnDemand_c15w", equiv=False)
     AS = list(range(0, 70, 3 if q else 1))
     cfg = f"CONSTANTS AS = {F(AS)} BS = {F([0, 1, 31, 33])}\nINIT InitOD\nNEXT NextOD\nINVARIANT EmitOD\nINVARIANT AllValid\nCHECK_DEADLOCK FALSE\n"
     odrecs += ctx.tlc_emit("Gen_OnDemandStr", cfg=cfg, timeout=1500, xmx="8g")
